@@ -2,8 +2,10 @@
 from __future__ import annotations
 
 import asyncio
+import json
 import random
 
+from ..core import Family
 from ..sim import srv as sim
 from .pumpfam import PumpFamily, gen_pump_case
 from .srvfam import ConnFamily, racy, gen_case, gen_orderly, get_loop, parse_model
@@ -104,6 +106,11 @@ def _mk_component(spec, loop):
     if k == "cert":
         fps = None if spec[3] is None else {sim.cert_pool()[i][1] for i in spec[3]}
         return CertificateAuth(CertificateAuthConfig(path_rules=[CertificateAuthPathRule(prefix=spec[1], require_cert=spec[2], allowed_fingerprints=fps)]))
+
+    if k == "quota":
+        from ..sim.mw_multi import Quota
+
+        return Quota(spec[1], spec[2], spec[3])
 
     class Scripted:
         async def process_request(self, url, ip, fp=None):
@@ -265,7 +272,215 @@ class PumpGate(PumpFamily):
         return self.oracle_once(case, obs)
 
 
-FAMILIES = [Gate(), Chain(), PumpGate()]
+CONC_LINES = ["gemini://h.example/", "gemini://h.example/app/secret.gmi", "gemini://h.example/app/secret.gmi?x=1", "gemini://H.Example:1965/app/../app/secret.gmi",
+              "titan://h.example/app/x;size=2;token=t", "titan://h.example/up/f.txt;size=3;mime=text/plain", "titan://h.example/up/f.txt;size=0"]
+CONC_PEERS = ["192.0.2.7", "192.0.2.7", "192.0.2.8", "2001:db8::5"]
+STATEFUL = ("rate", "quota")
+
+
+class Concurrent(Family):
+    """several connections of one server, one shared chain: request lines delivered in the same event-loop iteration
+    or while an earlier evaluation is still pending (slow components), stateful components (real RateLimiter, scripted
+    quota) behind slow ones, peers with different certificates asking for the same URL.
+
+    Direct oracle (no Lean line), per connection and per class of requests (URL, peer address, fingerprint):
+      * a connection whose request a stateless component (real AccessControl / CertificateAuth, scripted constant),
+        evaluated on its own with THIS connection's address, URL and presented certificate, refuses: no handler, no 2x,
+        and the status of that component unless a stateful component in front of it refused first;
+      * every handler run is covered by an `allow` of EVERY component for that very request: for each class, handler
+        runs <= number of allow verdicts each component gave for that class (components are spied on individually);
+      * the chain is consulted once per complete request, with that connection's address, URL and fingerprint."""
+
+    name = "concurrent"
+    quick_n = 2400
+    thorough_n = 40000
+
+    SLOW = [["allow", None, 1], ["allow", None, 2], ["allow", None, 3], ["allow", None, 5]]
+    STATE = [["rate", 1, 30], ["rate", 2, 9], ["rate", 0, 7], ["quota", 1, "53 Quota used up\r\n", 0], ["quota", 2, "44 Later\r\n", 1], ["quota", 1, None, 2]]
+    PLAIN = [["acl", ["192.0.2.0/24"], None, True], ["acl", None, ["192.0.2.7"], True], ["acl", None, None, False],
+             ["cert", "/app/", True, None], ["cert", "/", False, [0]], ["cert", "/app/", True, [0]], ["cert", "/up/", True, [1, 2]], ["cert", "/app/", False, []],
+             ["allow", None, 0], ["deny", "51 Not here\r\n", 0], ["deny", "53 Go away\r\n", 3], ["deny", None, 1], ["raise", None, 0], ["raise", None, 2]]
+
+    FIXED = [
+        # three connections of one peer ask for one URL while a slow component is still looking at the first
+        {"chain": [["allow", None, 3], ["rate", 1, 30]], "conns": [{"peer": "192.0.2.7", "line": CONC_LINES[1], "cert": None}] * 3,
+         "sched": [["d", 0], ["y", 1], ["d", 1], ["d", 2]]},
+        # same URL, same loop iteration: the first peer presents no certificate, the second an authorised one
+        {"chain": [["cert", "/app/", True, [0]]], "conns": [{"peer": "192.0.2.7", "line": CONC_LINES[1], "cert": None}, {"peer": "192.0.2.8", "line": CONC_LINES[1], "cert": 0}],
+         "sched": [["d", 0], ["d", 1]]},
+        {"chain": [["quota", 1, "53 Quota used up\r\n", 2], ["acl", None, ["192.0.2.8"], True]],
+         "conns": [{"peer": "192.0.2.7", "line": CONC_LINES[4], "cert": 3}, {"peer": "192.0.2.7", "line": CONC_LINES[4], "cert": 3}, {"peer": "192.0.2.8", "line": CONC_LINES[4], "cert": 0}],
+         "sched": [["d", 2], ["d", 0], ["y", 2], ["d", 1]]},
+    ]
+
+    def setup(self):
+        from ..sim import mw_clock, mw_multi
+
+        self.M, self.clock = mw_multi, mw_clock
+
+    def gen(self, rng: random.Random, n: int):
+        k = 0
+        for c in self.share(self.FIXED):
+            k += 1
+            yield c
+        while k < n:
+            k += 1
+            r = rng.random()
+            if r < 0.4:      # something that waits in front of something that counts
+                comps = [rng.choice(self.SLOW), rng.choice(self.STATE)]
+                if rng.random() < 0.4:
+                    comps.insert(rng.randint(0, 2), rng.choice(self.PLAIN))
+            elif r < 0.7:    # certificate / address rules, possibly slow or counting neighbours
+                comps = [rng.choice(self.PLAIN[:8])] + [rng.choice(self.SLOW + self.STATE + self.PLAIN) for _ in range(rng.randint(0, 2))]
+                rng.shuffle(comps)
+            else:
+                comps = [rng.choice(self.SLOW + self.STATE + self.PLAIN) for _ in range(rng.randint(1, 3))]
+            nconn = rng.choice((2, 2, 3, 3, 4, 5))
+            base = {"peer": rng.choice(CONC_PEERS), "line": rng.choice(CONC_LINES), "cert": rng.choice((None, None, 0, 1, 3))}
+            conns = []
+            for _ in range(nconn):
+                c = dict(base)
+                q = rng.random()
+                if q < 0.35:
+                    c["cert"] = rng.choice((None, 0, 0, 1, 2, 3))
+                elif q < 0.5:
+                    c["peer"] = rng.choice(CONC_PEERS)
+                elif q < 0.6:
+                    c["line"] = rng.choice(CONC_LINES)
+                elif q < 0.65:
+                    c = {"peer": rng.choice(CONC_PEERS), "line": rng.choice(CONC_LINES), "cert": rng.choice((None, 0, 1, 3))}
+                conns.append(c)
+            order = list(range(nconn))
+            rng.shuffle(order)
+            sched = []
+            for i in order:
+                sched.append(["d", i])
+                y = rng.choice((0, 0, 0, 1, 1, 2, 3, 4, 8))
+                if y:
+                    sched.append(["y", y])
+            yield {"chain": comps, "conns": conns, "sched": sched}
+
+    def impl(self, case):
+        loop = get_loop()
+        comps = [_mk_component(s, loop) for s in case["chain"]]
+        with self.clock.patched_time(lambda: 5000.0):
+            return loop.run_until_complete(self.M.run_multi(loop, case, comps))
+
+    @staticmethod
+    def args_of(conn):
+        from nauyaca.protocol.request import GeminiRequest, TitanRequest
+
+        line = conn["line"]
+        url = (TitanRequest.from_line(line) if line.startswith("titan://") else GeminiRequest.from_line(line)).normalized_url
+        return [url, conn["peer"], None if conn.get("cert") is None else sim.cert_pool()[conn["cert"]][1]]
+
+    def stateless_verdict(self, spec, args):
+        loop = get_loop()
+        comp = _mk_component([spec[0], spec[1], 0] if spec[0] in ("allow", "deny", "raise") else spec, loop)
+        try:
+            ok, resp = loop.run_until_complete(comp.process_request(*args))
+        except Exception:  # noqa: BLE001
+            return ("raise", None)
+        return ("allow", None) if ok else ("deny", resp)
+
+    def oracle(self, case, obs):
+        specs = case["chain"]
+        names = [f"#{j} {s[0]}{s[1:]}" for j, s in enumerate(specs)]
+        args = [self.args_of(c) for c in case["conns"]]
+        for i, (cn, a, r) in enumerate(zip(case["conns"], args, obs["conns"])):
+            what = f"connection {i} ({cn['line']!r} from {cn['peer']}, certificate {cn.get('cert')})"
+            if r["h"] + r["u"] > 1:
+                return ("handler-twice", f"{what}: handler invoked {r['h']}x and upload handler {r['u']}x")
+            earlier = set()
+            for j, s in enumerate(specs):
+                if s[0] in STATEFUL:
+                    earlier.add("44" if s[0] == "rate" else (s[2] or "40")[:2])
+                    continue
+                v = self.stateless_verdict(s, a)
+                if v[0] == "allow":
+                    continue
+                if r["h"] or r["u"]:
+                    return ("handler-ungated", f"{what}: component {names[j]}, asked on its own with this connection's address, URL and fingerprint {a[2]!r}, "
+                                               f"{'raises' if v[0] == 'raise' else 'refuses (' + repr(v[1]) + ')'}, yet the handler ran (handler={r['h']} upload={r['u']}, client got {r['st']!r}); "
+                                               f"chain {names}, schedule {case['sched']}, the chain was consulted with {obs['consults']}")
+                if r["st"][:1] == "2":
+                    return ("refused-got-success", f"{what}: component {names[j]} refuses the request but the client got {r['st']!r}")
+                want = (v[1] or "")[:2] if v[0] == "deny" else ""
+                if want.isdigit() and not 20 <= int(want) <= 29 and r["st"] not in earlier | {want}:
+                    return ("wrong-rejection", f"{what}: the first component that refuses is {names[j]} ({v[1]!r}) but the client received status {r['st']!r}")
+                break
+        # a counting component bounds the handler runs: the real RateLimiter (clock frozen during the case) admits at most
+        # `capacity` requests of one address, the scripted quota at most k requests altogether
+        for j, s in enumerate(specs):
+            if s[0] == "rate":
+                for peer in sorted({c["peer"] for c in case["conns"]}):
+                    runs = sum(r["h"] + r["u"] for c, r in zip(case["conns"], obs["conns"]) if c["peer"] == peer)
+                    if runs > s[1]:
+                        return ("handler-over-limit", f"{runs} handler runs for requests from {peer} at one instant although the chain holds {names[j]} (capacity {s[1]}: it refuses every further request "
+                                                      f"of that address with 44); statuses {[r['st'] for r in obs['conns']]}, chain {names}, connections {case['conns']}, schedule {case['sched']}, "
+                                                      f"the limiter was shown {[e[1][1] + ':' + e[2] for e in obs['comp'] if e[0] == j]}")
+            elif s[0] == "quota":
+                runs = sum(r["h"] + r["u"] for r in obs["conns"])
+                if runs > s[1]:
+                    return ("handler-over-limit", f"{runs} handler runs although the chain holds {names[j]}, which admits {s[1]} request(s) and refuses every later one with {s[2]!r}; "
+                                                  f"statuses {[r['st'] for r in obs['conns']]}, chain {names}, connections {case['conns']}, schedule {case['sched']}, "
+                                                  f"the component was shown {[e[2] for e in obs['comp'] if e[0] == j]}")
+        # every handler run is covered by an allow of every component for that very request
+        classes: dict = {}
+        for a, r in zip(args, obs["conns"]):
+            classes[tuple(a)] = classes.get(tuple(a), 0) + r["h"] + r["u"]
+        for a, runs in classes.items():
+            for j in range(len(specs)):
+                shown = [e for e in obs["comp"] if e[0] == j and tuple(e[1]) == a]
+                allows = sum(1 for e in shown if e[2] == "allow")
+                if runs > allows:
+                    n_same = sum(1 for x in args if tuple(x) == a)
+                    return ("handler-ungated", f"{runs} handler runs for the {n_same} connection(s) asking {a[0]!r} from {a[1]} with fingerprint {a[2]!r}, but component {names[j]} "
+                                               f"was shown such a request {len(shown)} time(s) and admitted {allows} (its answers: {[e[2] for e in shown]}); statuses {[r['st'] for r in obs['conns']]}, "
+                                               f"chain {names}, schedule {case['sched']}")
+        want = sorted(json.dumps(a) for a in args)
+        got = sorted(json.dumps([c[0], c[1], c[2] or None]) for c in obs["consults"])
+        if want != got:
+            return ("mw-args", f"the chain was consulted with {obs['consults']}; the connections are {args} (address, URL and fingerprint of the certificate each presented); schedule {case['sched']}")
+        return None
+
+    def key(self, case, obs):
+        kinds = [s[0] + ("~" if (s[0] in ("allow", "deny", "raise") and s[2]) or (s[0] == "quota" and s[3]) else "") for s in case["chain"]]
+        args = [json.dumps(self.args_of(c)) for c in case["conns"]]
+        same = "dup" if len(set(args)) < len(args) else "distinct"
+        back2back = any(a[0] == "d" and b[0] == "d" for a, b in zip(case["sched"], case["sched"][1:]))
+        slow_first = any(k.endswith("~") for k in kinds[:-1]) and any(s[0] in STATEFUL for s in case["chain"][1:])
+        sts = "".join(sorted({r["st"][:1] or "-" for r in obs["conns"]}))
+        return f"{'+'.join(kinds)}|{same}|{'same-iter' if back2back else 'spaced'}|{'slow>state|' if slow_first else ''}st={sts}"
+
+    def shrink(self, case, bad):
+        cur = case
+        budget = 60
+        changed = True
+        while changed and budget > 0:
+            changed = False
+            cands = []
+            for i in range(len(cur["conns"])):
+                if len(cur["conns"]) > 1:
+                    sched = [[e[0], e[1] - (e[1] > i)] if e[0] == "d" else e for e in cur["sched"] if not (e[0] == "d" and e[1] == i)]
+                    cands.append({"chain": cur["chain"], "conns": cur["conns"][:i] + cur["conns"][i + 1:], "sched": sched})
+            for j in range(len(cur["chain"])):
+                if len(cur["chain"]) > 1:
+                    cands.append({"chain": cur["chain"][:j] + cur["chain"][j + 1:], "conns": cur["conns"], "sched": cur["sched"]})
+            for cand in cands:
+                budget -= 1
+                if budget <= 0:
+                    break
+                try:
+                    if bad(cand):
+                        cur, changed = cand, True
+                        break
+                except Exception:  # noqa: BLE001
+                    pass
+        return cur
+
+
+FAMILIES = [Gate(), Chain(), PumpGate(), Concurrent()]
 
 # configuration file -> real start_server wiring -> request sequences (family `wiring`, harness/props/c04_wiring.py)
 from .c04_wiring import Wiring  # noqa: E402
